@@ -85,6 +85,21 @@ def pregen_linkedlistgo(work):
     return None
 
 
+def pregen_slicego(work):
+    """Ekit/Generated/SliceGo.lean: internal/slice/{add,delete,shrink}.go as terms of the third MiniGo instance
+    (harness/minigosl: slices with aliasing)."""
+    binp, blog = work.build("minigosl")
+    if binp is None:
+        return "Go->MiniGo(SL) translator does not build: " + blog
+    out = os.path.join(core.LEAN, "Ekit", "Generated", "SliceGo.lean")
+    tmp = os.path.join(work.dir, "SliceGo.lean")
+    rc, log = core.sh([binp, "-root", work.repo, "-out", tmp], env=core.GOENV, timeout=120)
+    if rc != 0:
+        return "Go->MiniGo(SL) translator failed (internal/slice left the translated subset): " + log
+    core.write_if_changed(out, open(tmp).read())
+    return None
+
+
 def lean_obligations(res, pid, extra_targets=()):
     """lake build of the property module + axiom audit + forbidden-token grep.
     Returns True iff every proof obligation of `pid` is discharged."""
